@@ -243,9 +243,10 @@ pub const P_GATE: Profile = Profile { name: "gate", nq: (2, 3), callers: (2, 3),
 pub fn generate_panic(r: &mut Rng) -> Program {
     let ctxk = r.below(5);
     let pool = 1 + r.below(3);
-    let nq = 3;
-    let mut healthy = |r: &mut Rng, n: usize| -> Vec<Op> {
-        (0..n).map(|_| { let q = 1 + r.below(2); match r.below(4) { 0 => Op::Sync(q, vec![Prim::Touch]), 1 => Op::TrySync(q, vec![Prim::Touch]), 2 => Op::FutDesync(q, vec![Prim::Touch], Mode::Await), _ => Op::Desync(q, vec![Prim::Touch]) } }).collect()
+    // context 4 parks EVERY pool thread on a gate, one gated job per object (objects 1..=pool), so that only callers can run object 0
+    let (h0, nq) = if ctxk >= 4 { (pool + 1, pool + 3) } else { (1, 3) };
+    let healthy = |r: &mut Rng, n: usize| -> Vec<Op> {
+        (0..n).map(|_| { let q = h0 + r.below(2); match r.below(4) { 0 => Op::Sync(q, vec![Prim::Touch]), 1 => Op::TrySync(q, vec![Prim::Touch]), 2 => Op::FutDesync(q, vec![Prim::Touch], Mode::Await), _ => Op::Desync(q, vec![Prim::Touch]) } }).collect()
     };
     let mut c0: Vec<Op> = vec![];
     let mut others: Vec<Vec<Op>> = vec![];
@@ -256,10 +257,11 @@ pub fn generate_panic(r: &mut Rng) -> Program {
         2 => { c0.push(Op::FutDesync(0, vec![Prim::Touch, Prim::Panic], Mode::Await)); }                  // polling task or pool thread
         3 => { c0.push(Op::FutDesync(0, vec![Prim::Touch, Prim::AwaitEv(0), Prim::Panic], Mode::Detach)); c0.push(Op::Fire(0)); nev = 1; }  // after a suspension
         _ => {
-            // drain / steal: every pool thread is parked on a gate, a sync caller holds object 0 while the panicking job is queued,
-            // a second sync caller arrives after that and is the one that runs it
-            ngates = pool + 1; nev = 3;
-            for g in 0..pool { c0.push(Op::Desync(1, vec![Prim::Touch, Prim::Gate(g)])); }
+            // drain / steal: a sync caller holds object 0 while the panicking job is queued behind it; a second sync caller arrives
+            // after that and is the one that runs it (by draining a Pending queue, or by stealing it when it is notified)
+            ngates = pool + 1; nev = 3 + pool;
+            for g in 0..pool { c0.push(Op::Desync(1 + g, vec![Prim::Touch, Prim::Signal(3 + g), Prim::Gate(g)])); }
+            for g in 0..pool { c0.push(Op::WaitEv(3 + g)); }                  // every pool thread is now inside its gated job
             c0.push(Op::WaitEv(1)); c0.push(Op::Desync(0, vec![Prim::Touch, Prim::Panic])); c0.push(Op::Fire(2)); c0.push(Op::Open(pool));
             others.push(vec![Op::Sync(0, vec![Prim::Touch, Prim::Signal(1), Prim::Gate(pool)])]);
             others.push(vec![Op::WaitEv(2), Op::Sync(0, vec![Prim::Touch])]);
